@@ -543,6 +543,11 @@ where
 			let _ = s.send(StatusMessage::Scanning(msg, 99));
 		}
 		o.status = OutputStatus::Unspent;
+		// (it may have been confirmed at another height before: take the chain's)
+		o.height = m.1.height;
+		if o.is_coinbase {
+			o.lock_height = m.1.lock_height;
+		}
 		// any transactions associated with this should be cancelled
 		cancel_tx_log_entry(wallet_inst.clone(), keychain_mask, &o)?;
 		wallet_lock!(wallet_inst, w);
@@ -583,6 +588,10 @@ where
 				let _ = s.send(StatusMessage::Scanning(msg, 99));
 			}
 			o.status = OutputStatus::Unspent;
+			o.height = m.1.height;
+			if o.is_coinbase {
+				o.lock_height = m.1.lock_height;
+			}
 			cancel_tx_log_entry(wallet_inst.clone(), keychain_mask, &o)?;
 			wallet_lock!(wallet_inst, w);
 			let mut batch = w.batch(keychain_mask)?;
